@@ -1,8 +1,10 @@
 // C01, last sentence: "Puts from several goroutines to distinct keys that are already present,
 // concurrent with reads of other keys, are free of data races and all take effect."
 //
-// Supporting evidence only (the Lean side proves the footprint of a Put of a present key; that
-// disjoint plain accesses are race-free is the Go memory model). Built with -race by the runner.
+// Supporting evidence and the search engine for the concurrent theorems of Props/C01Race (all
+// interleavings of the access-level model; the Go memory model is trusted). Readers: Get/Contains,
+// Range, RangeReverse and Iterate over key sets disjoint from the written keys, with the range
+// bounds adjacent to written keys. Built with -race by the runner.
 // Parent/child: the parent re-executes this binary with VERIF_RACE_CHILD=1 and judges the child by
 // its exit code and stderr (the race detector exits 66 after printing "WARNING: DATA RACE"; the
 // child exits 3 on a logical failure: a Put that did not take effect, a reader that saw a foreign
@@ -28,14 +30,32 @@ import (
 const (
 	writers = 8
 	readers = 4
-	classes = 16 // key k belongs to class k % 16: classes 0..7 are written (one writer each), 8..15 only read
+	classes = 16 // key k belongs to class (k+7) % 16: classes 0..7 are written (one writer each), 8..15 only read
 )
+
+// class of a key. Keys 1..8 are read-only (classes 8..15), 9..16 written (classes 0..7), 17..24
+// read-only, ...: the read-only keys form runs 16q+1 .. 16q+8 whose two neighbours 16q and 16q+9
+// are written keys.
+func class(k int) int { return (k + 7) % classes }
+
+// reader kinds (Params.Readers is a bit set; 0 = all)
+const (
+	rdGet = 1 << iota
+	rdRange
+	rdRangeReverse
+	rdIterate
+	rdAll = rdGet | rdRange | rdRangeReverse | rdIterate
+)
+
+var readerNames = map[int]string{rdGet: "get", rdRange: "range", rdRangeReverse: "rangereverse", rdIterate: "iterate"}
 
 type params struct {
 	Seed   uint64 `json:"seed"`
 	N      int    `json:"n"`
 	Rounds int    `json:"rounds"`
 	Cmp    bool   `json:"cmp"`
+	// bit set of reader kinds (rdGet | rdRange | rdRangeReverse | rdIterate); 0 = all
+	Readers int `json:"readers,omitempty"`
 }
 
 func initial(k int) int { return 7*k + 1 }
@@ -79,7 +99,7 @@ func child(p params) {
 			defer wg.Done()
 			var keys []int
 			for k := 1; k <= p.N; k++ {
-				if k%classes == g {
+				if class(k) == g {
 					keys = append(keys, k)
 				}
 			}
@@ -96,25 +116,89 @@ func child(p params) {
 			}
 		}(g)
 	}
+	kinds := p.Readers
+	if kinds == 0 {
+		kinds = rdAll
+	}
+	var kindList []int
+	for _, kd := range []int{rdGet, rdRange, rdRangeReverse, rdIterate} {
+		if kinds&kd != 0 {
+			kindList = append(kindList, kd)
+		}
+	}
+	runs := (p.N - 8) / classes // complete read-only runs 16q+1 .. 16q+8 with both neighbours present
+	// checkRun: an iterator over exactly the read-only run q must yield its 8 keys in order with
+	// their constant values and then end.
+	checkRun := func(what string, q int, rev bool, next func() (tree.KVPair[int, int], bool)) int64 {
+		for j := 0; j < 8; j++ {
+			want := 16*q + 1 + j
+			if rev {
+				want = 16*q + 8 - j
+			}
+			pair, ok := next()
+			if !ok || pair.Key != want || pair.Value != initial(want) {
+				fail("reader: %s over run %d: item %d = (%d, %d, %v), want (%d, %d, true)", what, q, j, pair.Key, pair.Value, ok, want, initial(want))
+				return int64(j)
+			}
+		}
+		if pair, ok := next(); ok {
+			fail("reader: %s over run %d yields (%d, %d) beyond its bound", what, q, pair.Key, pair.Value)
+		}
+		return 9
+	}
 	for g := 0; g < readers; g++ {
 		rg.Add(1)
 		mine := m
 		rr := r.Fork()
+		kind := kindList[g%len(kindList)]
 		go func() {
 			defer rg.Done()
 			n := int64(0)
 			for atomic.LoadInt32(&stop) == 0 {
-				k := 1 + rr.Intn(p.N)
-				if k%classes < writers {
-					continue
+				switch kind {
+				case rdGet:
+					k := 1 + rr.Intn(p.N)
+					if class(k) < writers {
+						continue
+					}
+					if v := mine.Get(k); v != initial(k) {
+						fail("reader: Get(%d) = %d, want its constant value %d", k, v, initial(k))
+					}
+					if !mine.Contains(k) {
+						fail("reader: Contains(%d) = false", k)
+					}
+					n += 2
+				case rdRange, rdRangeReverse:
+					// bounds adjacent to written keys: the inclusive ends are the first / last
+					// read-only key of the run, the exclusive ends are the written neighbours
+					// themselves (a bound key is only ever compared, never looked up).
+					q := rr.Intn(runs)
+					lo, hi := tree.Included(16*q+1), tree.Included(16*q+8)
+					if rr.Intn(2) == 0 {
+						lo = tree.Excluded(16 * q)
+					}
+					if rr.Intn(2) == 0 {
+						hi = tree.Excluded(16*q + 9)
+					}
+					if kind == rdRange {
+						n += checkRun("Range", q, false, mine.Range(lo, hi).Next)
+					} else {
+						n += checkRun("RangeReverse", q, true, mine.RangeReverse(lo, hi).Next)
+					}
+				case rdIterate:
+					// Iterate, abandoned after the first 8 items (keys 1..8, read-only; the
+					// cursor is then parked on the written key 9 whose value is never asked for);
+					// and the unbounded-below / unbounded-above ranges that end next to a written key.
+					it := mine.Iterate()
+					for j := 1; j <= 8; j++ {
+						pair, ok := it.Next()
+						if !ok || pair.Key != j || pair.Value != initial(j) {
+							fail("reader: Iterate item %d = (%d, %d, %v), want (%d, %d, true)", j, pair.Key, pair.Value, ok, j, initial(j))
+							break
+						}
+					}
+					n += 8 + checkRun("Range(unbounded, 8]", 0, false, mine.Range(tree.Unbounded[int](), tree.Included(8)).Next)
 				}
-				if v := mine.Get(k); v != initial(k) {
-					fail("reader: Get(%d) = %d, want its constant value %d", k, v, initial(k))
-				}
-				if !mine.Contains(k) {
-					fail("reader: Contains(%d) = false", k)
-				}
-				n += 2
 			}
 			atomic.AddInt64(&reads, n)
 		}()
@@ -127,7 +211,7 @@ func child(p params) {
 	}
 	for k := 1; k <= p.N; k++ {
 		want := initial(k)
-		if k%classes < writers {
+		if class(k) < writers {
 			want = final[k]
 		}
 		if v := m.Get(k); v != want {
@@ -207,19 +291,39 @@ func main() {
 		}
 		return
 	}
-	res := vlib.NewResult("C01", "stress rounds: a tree.Map[int,int] (less- or cmp-constructed) with 2000-20000 present keys, 8 writer goroutines each "+
-		"Put-ting many rounds of values to the keys of its own residue class (mod 16), 4 reader goroutines doing Get/Contains on keys of classes nobody writes, "+
-		"each goroutine through its own copy of the Map value; afterwards every written key must hold its writer's last value, Len is unchanged, readers saw "+
-		"constant values; run under the Go race detector. Every round is non-trivial; distinct = different (seed, n, rounds, constructor)")
+	res := vlib.NewResult("C01", "stress rounds: a tree.Map[int,int] (less- or cmp-constructed) with 2000-20000 present keys (quick: 400-3000), 8 writer goroutines each "+
+		"Put-ting many rounds of values to the keys of its own residue class ((k+7) mod 16 in 0..7), 4 reader goroutines of the kinds Get/Contains, Range, RangeReverse, "+
+		"Iterate (abandoned before the first written key) on keys of classes nobody writes - the ranges cover exactly one run of 8 read-only keys, both bounds adjacent "+
+		"to a written key (inclusive read-only end or exclusive written neighbour) - each goroutine through its own copy of the Map value; afterwards every written key "+
+		"must hold its writer's last value, Len is unchanged, readers saw constant values and exactly their runs; run under the Go race detector. Every round is "+
+		"non-trivial; distinct = different (seed, n, rounds, constructor)")
 	res.Extra["race_detector"] = raceEnabled
 	budget := time.Duration(env.BudgetMs/3) * time.Millisecond
 	if budget > 40*time.Second {
 		budget = 40 * time.Second
 	}
+	quick := env.Tier != "thorough" && !env.Deep
 	deadline := time.Now().Add(budget)
 	r := vlib.NewRand(env.Seed).Fork()
-	for i := 0; i < 200 && (i < 2 || time.Now().Before(deadline)); i++ {
-		p := params{Seed: r.Uint64() >> 1, N: r.Range(2000, 20000), Rounds: r.Range(10, 40), Cmp: i%2 == 1}
+	// the corpus first: one JSON object of parameters per *.race file
+	var corpus []params
+	for _, f := range vlib.CorpusFiles(env.Corpus, ".race") {
+		var p params
+		if json.Unmarshal([]byte(strings.Join(vlib.ReadLines(f), " ")), &p) == nil && p.N >= classes {
+			corpus = append(corpus, p)
+		}
+	}
+	for i := 0; i < 200+len(corpus) && (i < 2+len(corpus) || time.Now().Before(deadline)); i++ {
+		var p params
+		if i < len(corpus) {
+			p = corpus[i]
+			res.Count("corpus")
+		} else {
+			p = params{Seed: r.Uint64() >> 1, N: r.Range(2000, 20000), Rounds: r.Range(10, 40), Cmp: i%2 == 1}
+			if quick {
+				p.N, p.Rounds = r.Range(400, 3000), r.Range(4, 12)
+			}
+		}
 		kind, what := runChild(p)
 		res.Case(fmt.Sprintf("%+v", p), true, p)
 		res.Evaluations += p.Rounds - 1 // Case counted one; Evaluations = writer rounds
@@ -227,12 +331,36 @@ func main() {
 		res.Count("ctor-" + map[bool]string{true: "cmp", false: "less"}[p.Cmp])
 		res.CountN("puts", p.Rounds*(p.N/2))
 		res.Count("keys-" + strconv.Itoa(p.N/5000*5000) + "+")
+		for _, kd := range []int{rdGet, rdRange, rdRangeReverse, rdIterate} {
+			res.Count("api:reader-" + readerNames[kd])
+		}
 		switch kind {
 		case "":
 		case "harness":
 			res.Fail(vlib.Failure{Source: "correspondence", Kind: "tree-race-child-broken", What: what, Case: p})
 		default:
-			res.Fail(vlib.Failure{Source: "monitor", Kind: kind, Params: map[string]interface{}{"cmp": p.Cmp}, What: what, Case: p})
+			// shrink: which single reader kind reproduces it, on how small a map
+			readers := "all"
+			for _, kd := range []int{rdGet, rdRange, rdRangeReverse, rdIterate} {
+				q := p
+				q.Readers = kd
+				if k2, w2 := runChild(q); k2 == kind {
+					p, what, readers = q, w2, readerNames[kd]
+					break
+				}
+			}
+			for _, n := range []int{64, 200, 1000} {
+				q := p
+				q.N, q.Rounds = n, 4
+				if q.N >= p.N {
+					break
+				}
+				if k2, w2 := runChild(q); k2 == kind {
+					p, what = q, w2
+					break
+				}
+			}
+			res.Fail(vlib.Failure{Source: "monitor", Kind: kind, Params: map[string]interface{}{"cmp": p.Cmp, "readers": readers}, What: what, Case: p})
 		}
 	}
 	res.Write(env.Out)
